@@ -130,35 +130,49 @@ Section ConfigEntries.
     apply (f_equal (fun t => cfg t !! k)) in Heq. cbn in Heq. rewrite lookup_delete in Heq. congruence.
   Qed.
   (* ---------- the RPC endpoints (what a client of ConfigEntry.Apply / Delete is told) ---------- *)
+  (* The unconditional write of this layer is ConfigEntry.Apply with a plain upsert, which itself is a
+     no-op when the stored entry already equals the submitted one. *)
   Definition rcmd (c : ureq) : cmd := RpcCfgApply true (u_key c) (u_content c) (u_status c) (u_cidx c).
-  Definition rwrite (c : ureq) (s : st) : attempt := ensure_cfg graph_ok (u_idx c) false (u_key c) (u_content c) 0 s.
+  Definition rplain (c : ureq) : cmd := RpcCfgApply false (u_key c) (u_content c) (u_status c) 0.
   Definition W_rpc_cfg_upsert : cond_write st ureq :=
     CW (fun s c => (apply graph_ok (u_idx c) (rcmd c) s).1)
        (fun s c => is_true (apply graph_ok (u_idx c) (rcmd c) s).2)
        (fun s c => expect ce_modify (cfg s !! u_key c) (u_cidx c))
-       (fun s c => att_ok (rwrite c s))
-       (fun s c => att_state (rwrite c s) s).
-  Definition rpc_skipped (s : st) (c : ureq) : bool := rpc_skip_upsert (u_key c) (u_content c) (u_status c) s.
+       (fun s c => is_true (apply graph_ok (u_idx c) (rplain c) s).2)
+       (fun s c => (apply graph_ok (u_idx c) (rplain c) s).1).
+  (* stored rows carry a Raft index, which is never zero *)
+  Definition stored_positive (s : st) (c : ureq) : Prop := forall x, cfg s !! u_key c = Some x -> ce_modify x <> 0.
 
-  (* unless the endpoint short-circuits, the reply is the FSM command's, which is honest *)
-  Theorem rpc_cfg_upsert_partial : honest_on (fun s c => rpc_skipped s c = false) W_rpc_cfg_upsert.
+  Theorem rpc_cfg_upsert_honest : honest_on stored_positive W_rpc_cfg_upsert.
   Proof.
-    split; intros s [idx k content status cidx ws] Hs; unfold rpc_skipped in Hs; cbn in Hs;
-      unfold W_rpc_cfg_upsert, rcmd, rwrite; cbn; rewrite Hs; unfold ensure_cfg_cas;
-      destruct (cfg s !! k) as [x|] eqn:Ek; crush;
-      try (destruct (ensure_cfg _ _ _ _ _ _ _); crush).
+    split; intros s [idx k content status cidx ws] Hp; unfold stored_positive in Hp; cbn in Hp;
+      unfold W_rpc_cfg_upsert, rcmd, rplain; cbn; unfold rpc_skip_upsert, ensure_cfg_cas;
+      destruct (cfg s !! k) as [x|] eqn:Ek; try specialize (Hp x eq_refl); crush;
+      try (unfold ensure_cfg in *; rewrite ?Ek in *; destruct (graph_ok _ _); crush).
   Qed.
 
-  (* the short-circuit: equal content is answered "true" whatever index was supplied; nothing is
-     written (and nothing needs to be: the stored entry already has the submitted content) *)
-  Theorem rpc_cfg_upsert_skip s c :
-    rpc_skipped s c = true ->
-    apply graph_ok (u_idx c) (rcmd c) s = (s, RBool true) /\
-    exists x, cfg s !! u_key c = Some x /\ ce_content x = u_content c.
+  (* a stale, zero or future index on an entry of equal content is now answered false *)
+  Theorem rpc_cfg_upsert_equal_content_mismatch s c x :
+    cfg s !! u_key c = Some x -> u_cidx c <> ce_modify x ->
+    apply graph_ok (u_idx c) (rcmd c) s = (s, RBool false).
   Proof.
-    destruct c as [idx k content status cidx ws]. unfold rpc_skipped, rcmd; cbn. intros Hs. rewrite Hs.
-    split; [reflexivity|]. unfold rpc_skip_upsert in Hs. destruct (cfg s !! k) as [x|]; [|discriminate].
-    exists x. split; [reflexivity|]. crush.
+    destruct c as [idx k content status cidx ws]; cbn. intros Hx Hne. unfold rpc_skip_upsert, ensure_cfg_cas.
+    rewrite Hx. crush.
+  Qed.
+
+  (* visibility: unless the stored entry already has the submitted content/status, an accepted write shows *)
+  Theorem rpc_cfg_upsert_effective s c :
+    rpc_skip_upsert false 0 (u_key c) (u_content c) (u_status c) s = false ->
+    (forall x, cfg s !! u_key c = Some x -> ce_modify x < u_idx c) ->
+    cw_valid W_rpc_cfg_upsert s c = true -> effective W_rpc_cfg_upsert s c.
+  Proof.
+    destruct c as [idx k content status cidx ws]. unfold effective, W_rpc_cfg_upsert, rplain; cbn.
+    intros Hs Hfresh. rewrite Hs. unfold ensure_cfg. destruct (graph_ok _ _); cbn; [|discriminate]. intros _ Heq.
+    apply (f_equal (fun t => cfg t !! k)) in Heq. revert Heq.
+    assert (Hcfg : forall t, cfg (index_max ix_config idx t) = cfg t).
+    { intros t. unfold index_max. destruct (index t !! ix_config); [destruct (_ <=? _)|]; reflexivity. }
+    rewrite Hcfg. cbn. rewrite lookup_insert. intros Heq. symmetry in Heq.
+    specialize (Hfresh _ Heq). cbn in Hfresh. lia.
   Qed.
 
   Record rdreq := RDReq { rd_idx : N; rd_key : ckey; rd_cidx : N }.
@@ -169,44 +183,33 @@ Section ConfigEntries.
        (fun s c => att_ok (delete_cfg graph_ok (rd_idx c) (rd_key c) s))
        (fun s c => att_state (delete_cfg graph_ok (rd_idx c) (rd_key c) s) s).
 
-  Theorem rpc_cfg_delete_partial : honest_on (fun s c => is_Some (cfg s !! rd_key c)) W_rpc_cfg_delete.
+  Theorem rpc_cfg_delete_honest : honest W_rpc_cfg_delete.
   Proof.
-    split; intros s [idx k cidx] [x Hx]; cbn in Hx; unfold W_rpc_cfg_delete; cbn; unfold rpc_skip_delete, delete_cfg_cas;
-      rewrite Hx; rewrite bool_decide_eq_true_2 by (eexists; reflexivity); cbn; crush;
-      try (unfold delete_cfg in *; rewrite Hx in *; destruct (graph_ok _ _); crush).
+    split; intros s [idx k cidx] _; unfold W_rpc_cfg_delete; cbn; unfold delete_cfg_cas;
+      destruct (cfg s !! k) as [x|] eqn:Ek; crush;
+      try (unfold delete_cfg in *; rewrite Ek in *; destruct (graph_ok _ _); crush).
   Qed.
 
-  (* an absent entry: Deleted = true for every supplied index -- the KV convention, the opposite of
-     the store method underneath (cfg_delete_reports_removal) *)
+  (* an absent entry: nothing to delete, Deleted = false, as the store method says *)
   Theorem rpc_cfg_delete_absent s c :
     cfg s !! rd_key c = None ->
-    apply graph_ok (rd_idx c) (RpcCfgDelete true (rd_key c) (rd_cidx c)) s = (s, RBool true).
-  Proof.
-    destruct c as [idx k cidx]; cbn. intros Hn. unfold rpc_skip_delete. rewrite Hn.
-    rewrite bool_decide_eq_false_2 by (intros [? ?]; discriminate). reflexivity.
-  Qed.
+    apply graph_ok (rd_idx c) (RpcCfgDelete true (rd_key c) (rd_cidx c)) s = (s, RBool false).
+  Proof. destruct c as [idx k cidx]; cbn. intros Hn. unfold delete_cfg_cas. rewrite Hn. reflexivity. Qed.
 End ConfigEntries.
 
-(* the two refutations, on concrete states *)
+(* regression: the two inputs that were answered "true" before fbf8c12 *)
 Definition rpc_witness_state : st := (apply (fun _ _ => true) 5 (CfgUpsert ("service-defaults", "web") 1) st0).1.
 Definition rpc_witness_cmd : ureq := UReq 9 ("service-defaults", "web") 1 0 3 false.   (* expects index 3; the entry is at 5 *)
 
-Theorem rpc_cfg_upsert_refuted :
-  let W := W_rpc_cfg_upsert (fun _ _ => true) in
-  cw_ok W rpc_witness_state rpc_witness_cmd = true /\ cw_matched W rpc_witness_state rpc_witness_cmd = false /\
-  cw_post W rpc_witness_state rpc_witness_cmd = rpc_witness_state.
-Proof. repeat split; vm_compute; reflexivity. Qed.
-
-Theorem rpc_cfg_upsert_not_honest : ~ honest (W_rpc_cfg_upsert (fun _ _ => true)).
+Example rpc_regression :
+  apply (fun _ _ => true) 9 (rcmd rpc_witness_cmd) rpc_witness_state = (rpc_witness_state, RBool false) /\
+  apply (fun _ _ => true) 9 (RpcCfgApply true ("service-defaults", "web") 1 0 0) rpc_witness_state = (rpc_witness_state, RBool false) /\
+  apply (fun _ _ => true) 9 (RpcCfgApply true ("service-defaults", "web") 1 0 5) rpc_witness_state = (rpc_witness_state, RBool true) /\
+  apply (fun _ _ => true) 5 (RpcCfgDelete true ("service-defaults", "web") 3) st0 = (st0, RBool false) /\
+  stored_positive rpc_witness_state rpc_witness_cmd.
 Proof.
-  intros [H _ _]. destruct rpc_cfg_upsert_refuted as (Hok & Hm & _).
-  apply (H _ _ I) in Hok as [Hm' _]. cbv zeta in Hm. congruence.
-Qed.
-
-Theorem rpc_cfg_delete_not_honest : ~ honest (W_rpc_cfg_delete (fun _ _ => true)).
-Proof.
-  intros [H _ _]. specialize (H st0 (RDReq 5 ("service-defaults", "web") 3) I). cbn in H.
-  destruct H as [H _]. destruct (H eq_refl) as [Hm _]. discriminate Hm.
+  repeat split; try (vm_compute; reflexivity).
+  intros x Hx. vm_compute in Hx. injection Hx as <-. discriminate.
 Qed.
 
 (* ================= CA configuration ================= *)
